@@ -395,6 +395,18 @@ impl Sub for Synthetic {
                 }
             }
         }
+        // tall matrices: row indices beyond i8 / i16 ranges of the vectorised index bookkeeping
+        // (65536 rows is the documented limit of the AVX2 u8 arg-maximum)
+        for (rows, row, col) in [(300usize, 299usize, 5usize), (32769, 32768, 13), (40000, 39999, 30), (65536, 65535, 0), (65536, 32767, 31)] {
+            for dtype in [Dtype::U8, Dtype::F32] {
+                out.push(SynCase {
+                    dtype,
+                    wide: true,
+                    cells: Cells::Spikes { rows, base: Fl(3.0), value: Fl(200.0), at: vec![(row, col)] },
+                    thr: Thr::Cell(row * 32 + col),
+                });
+            }
+        }
         if tier == Tier::Thorough {
             out.push(SynCase {
                 dtype: Dtype::U8,
